@@ -260,3 +260,88 @@ Example cache_fresh_example :
   snd (run true 30%N {| gr := g_nt; ca := [] |} ops) =
   [Some (ABool false); None; Some (ADist (Some 1%N)); None; Some (ABool true)].
 Proof. vm_compute. reflexivity. Qed.
+
+(* ------------------------------------------------------------------------------------------ *)
+(* C. the providers' own cache *)
+Lemma pcache_get_In c t a : pcache_get c t = Some a -> In (t, a) c.
+Proof.
+  induction c as [|[k b] c IH]; simpl; [discriminate|].
+  destruct (ty_eqb t k) eqn:E.
+  - intro H. inversion H; subst. apply ty_eqb_eq in E. subst. auto.
+  - auto.
+Qed.
+
+Lemma pstep_fresh k anyd prims s o :
+  disciplined o = true -> pfresh k anyd prims s -> pfresh k anyd prims (fst (pstep k anyd prims s o)).
+Proof.
+  intros D F. destruct o as [typ|tb clear|p c|]; simpl in *.
+  - destruct (pcache_get (pca s) typ) eqn:E; simpl; [exact F|].
+    intros t a [H|H]; [inversion H; reflexivity|apply F; exact H].
+  - subst clear. intros t a [].
+  - discriminate.
+  - intros t a [].
+Qed.
+
+Lemma pstep_query_answer k anyd prims s typ :
+  pfresh k anyd prims s ->
+  snd (pstep k anyd prims s (PQuery typ)) = Some (offered k (pgr s) anyd prims (ptb s) typ).
+Proof.
+  intro F. simpl. destruct (pcache_get (pca s) typ) eqn:E; simpl; [|reflexivity].
+  apply pcache_get_In in E. rewrite (F _ _ E). reflexivity.
+Qed.
+
+Lemma prun_cons k anyd prims s o r :
+  prun k anyd prims s (o :: r) =
+  let '(s1, a) := pstep k anyd prims s o in let '(s2, l) := prun k anyd prims s1 r in (s2, a :: l).
+Proof. reflexivity. Qed.
+
+Lemma prun_fresh k anyd prims ops : forall s,
+  forallb disciplined ops = true -> pfresh k anyd prims s ->
+  pfresh k anyd prims (fst (prun k anyd prims s ops)).
+Proof.
+  induction ops as [|o ops IH]; intros s D F; [exact F|].
+  simpl in D. apply andb_true_iff in D. destruct D as [D1 D2].
+  pose proof (pstep_fresh k anyd prims s o D1 F) as F1. rewrite prun_cons.
+  destruct (pstep k anyd prims s o) as [s1 a] eqn:E1. simpl in F1.
+  specialize (IH s1 D2 F1). destruct (prun k anyd prims s1 ops) as [s2 l] eqn:E2. simpl in *. exact IH.
+Qed.
+
+(* for every history in which each change of the generator table is followed by
+   clear_generator_cache (and the graph does not change): a request asked afterwards is answered
+   as by a provider freshly built on the final table *)
+Lemma provider_cache_fresh k anyd prims g tb ops typ :
+  forallb disciplined ops = true ->
+  let s' := fst (prun k anyd prims {| pgr := g; ptb := tb; pca := [] |} ops) in
+  snd (pstep k anyd prims s' (PQuery typ)) = Some (offered k (pgr s') anyd prims (ptb s') typ).
+Proof.
+  intro D. apply pstep_query_answer. apply prun_fresh; [exact D|]. intros t a [].
+Qed.
+
+(* and any history ending in clear_generator_cache is as good as a fresh provider *)
+Lemma provider_cache_fresh_after_clear k anyd prims s ops typ :
+  let s' := fst (pstep k anyd prims (fst (prun k anyd prims s ops)) PClear) in
+  snd (pstep k anyd prims s' (PQuery typ)) = Some (offered k (pgr s') anyd prims (ptb s') typ).
+Proof. apply pstep_query_answer. intros t a []. Qed.
+
+(* the cache is NOT invalidated by a graph update (add_subclass_edge cannot reach the provider):
+   K (class 6) is requested, then the edge K -> str is added; the cached answer misses the
+   generator returning str.  Same for a table change without clear_generator_cache. *)
+Definition tb_ph : table := [(t_K, [0%N]); (t_str, [1%N])].
+Lemma provider_cache_stale_after_graph_update :
+  let s' := fst (prun PRand 30%N [] {| pgr := g_ex; ptb := tb_ph; pca := [] |} [PQuery t_K; PEdge 6%N 1%N]) in
+  snd (pstep PRand 30%N [] s' (PQuery t_K)) = Some [0%N] /\
+  offered PRand (pgr s') 30%N [] (ptb s') t_K = [0%N; 1%N].
+Proof. vm_compute. split; reflexivity. Qed.
+
+Lemma provider_cache_stale_without_clear :
+  let s' := fst (prun PHeur 30%N [] {| pgr := g_ex; ptb := tb_ph; pca := [] |}
+                      [PQuery t_K; PTable [(t_K, [0%N; 1%N])] false]) in
+  snd (pstep PHeur 30%N [] s' (PQuery t_K)) = Some [0%N] /\
+  offered PHeur (pgr s') 30%N [] (ptb s') t_K = [0%N; 1%N].
+Proof. vm_compute. split; reflexivity. Qed.
+
+Example provider_cache_example :
+  snd (prun PHeur 30%N [] {| pgr := g_ex; ptb := tb_ph; pca := [] |}
+            [PQuery t_K; PTable [(t_K, [0%N; 1%N])] true; PQuery t_K; PClear; PQuery t_obj]) =
+  [Some [0%N]; None; Some [0%N; 1%N]; None; Some [0%N; 1%N]].
+Proof. vm_compute. reflexivity. Qed.
